@@ -48,9 +48,9 @@ impl InputVariant {
         starter.data.fields = match v.fields {
             syn::Fields::Unit => vec![],
             syn::Fields::Unnamed(ref fields) => {
-                if fields.unnamed.len() > 1 {
+                if fields.unnamed.len() != 1 {
                     return Err(Error::custom(
-                        "Tuple variants with more than one field are not supported",
+                        "Tuple variants must have exactly one field",
                     )
                     .with_span(&v.fields));
                 }
